@@ -121,6 +121,7 @@ example : reorder (.tbl [(1, .tbl []), (2, .scalar 0)]) = .tbl [(2, .scalar 0), 
 #print axioms Xt.Props.Fidelity.m2j_slice_answer_eq_reader
 #print axioms Xt.Props.Fidelity.unrepresentable_is_error
 #print axioms Xt.Props.Fidelity.bin_value_becomes_array
+#print axioms Xt.Props.Fidelity.failing_document_streamed
 #print axioms Xt.Props.Fidelity.json_to_msgpack_fidelity
 #print axioms Xt.Props.Fidelity.json_to_msgpack_fidelity_of_wf
 #print axioms Xt.Props.Fidelity.json_to_msgpack_fidelity_documents
